@@ -18,3 +18,12 @@ def batches(fn, n, per, **kw):
 
 def scale(tier, quick, thorough):
     return quick if tier == "quick" else thorough
+
+
+def family_slices(fn, total, per, tier, seed, parts=3, **kw):
+    """jobs over an exhaustively enumerated family of `total` cases: all of it in the thorough tier, a third of it
+    (rotating with the seed) in the quick tier"""
+    js = batches(fn, total, per, **kw)
+    if tier == "quick":
+        js = [j for i, j in enumerate(js) if i % parts == seed % parts]
+    return js
